@@ -610,7 +610,7 @@ func codecCase(rep *Report, s *glue.Subject, d MD, idx int) {
 					continue
 				}
 			}
-			if hi == 3 && !(route == 0 && snan) { // Clone goes through protoreflect.Value, which quiets float32 sNaNs
+			if hi == 3 && !hasF32SNaN(expIR) { // Clone goes through protoreflect.Value, which quiets float32 sNaNs
 				H = proto.Clone(H)
 			}
 			if hi%3 != 2 && (hi+idx)%2 == 1 {
